@@ -426,3 +426,45 @@ func resolveCell(v ssa.Value) ssa.Value {
 	}
 	return v
 }
+
+// unspill resolves a value loaded from a non-escaping local variable cell (as produced
+// for results of functions with defers, or ordinary locals whose address is not taken)
+// to the set of values stored into that cell; other values are returned unchanged.
+func unspill(v ssa.Value) []ssa.Value {
+	u, ok := v.(*ssa.UnOp)
+	if !ok || u.Op != token.MUL {
+		return []ssa.Value{v}
+	}
+	cell, ok := u.X.(*ssa.Alloc)
+	if !ok || cellEscapes(cell) {
+		return []ssa.Value{v}
+	}
+	st := cellStores(cell)
+	if len(st) == 0 {
+		return []ssa.Value{v}
+	}
+	return st
+}
+
+// returnedValues lists, for result index i, every value a (non-recover) return of f may
+// return, looking through defer spills.
+func returnedValues(f *ssa.Function, i int) []ssa.Value {
+	var out []ssa.Value
+	seen := map[ssa.Value]bool{}
+	for _, b := range f.Blocks {
+		if f.Recover == b {
+			continue
+		}
+		for _, in := range b.Instrs {
+			if ret, ok := in.(*ssa.Return); ok && i < len(ret.Results) {
+				for _, v := range unspill(ret.Results[i]) {
+					if !seen[v] {
+						seen[v] = true
+						out = append(out, v)
+					}
+				}
+			}
+		}
+	}
+	return out
+}
